@@ -49,9 +49,5 @@ func loadAutoCompleteBoardsToStartIdx(startIdxStr string, keywordBytes []byte, i
 		return loadGeneralBoardsToStartIdx(startIdxStr, isAsc, ptttype.BSORT_BY_NAME)
 	}
 
-	if len(keywordBytes) == 0 {
-		return 1, nil
-	}
-
 	return ptt.FindBoardAutoCompleteStartIdx(keywordBytes, isAsc)
 }
